@@ -231,7 +231,8 @@ Fixpoint glob_ok (v : variant) (h : how) (c : cur) (i : inst) {struct i} : bool 
   match i with
   | IText _ | IObs _ => true
   | IBlock d l => forallb (glob_ok v (kid_how d) c) l
-  | IForEach sel iters => forallb (glob_ok v Ord c) sel && forallb (glob_ok v Ord None) iters
+  | IForEach sel iters => forallb (glob_ok v Ord None) sel && forallb (glob_ok v Ord None) iters
+      (* the select is evaluated after the null rule was pushed *)
   | ITemplate t d l =>
       let c' := match h with ByMatch => Some t | _ => c end in
       forallb (glob_ok v (kid_how d) c') l
